@@ -602,6 +602,7 @@ func c01Counter(p *core.Program, r *core.Report) {
 		return ""
 	}
 	owner := outT
+	sliceStore := false
 	bufField := bufFieldOf(outT)
 	if bufField == "" {
 		if st, ok := outT.Underlying().(*types.Struct); ok {
@@ -666,8 +667,25 @@ func c01Counter(p *core.Program, r *core.Report) {
 				}
 			}
 		}
-		r.Undec("C01.counter", "io.DataOutputX", "-", "no bytes.Buffer behind DataOutputX")
-		return
+		// a plain byte slice with a counter of its own beside it: appends are `x.f = append(x.f, …)`,
+		// the reset is `x.f = x.f[:0]`; the pairing with the counter is judged as for bytes.Buffer
+		if st, ok := outT.Underlying().(*types.Struct); ok {
+			n := 0
+			for i := 0; i < st.NumFields(); i++ {
+				if isByteSlice(st.Field(i).Type()) {
+					bufField = st.Field(i).Name()
+					n++
+				}
+			}
+			if n != 1 {
+				bufField = ""
+			}
+		}
+		if bufField == "" {
+			r.Undec("C01.counter", "io.DataOutputX", "-", "no bytes.Buffer behind DataOutputX")
+			return
+		}
+		sliceStore = true
 	}
 	isOwnerMethod := func(fi *core.FuncInfo) bool {
 		n := core.RecvNamed(fi.Obj)
@@ -797,6 +815,35 @@ func c01Counter(p *core.Program, r *core.Report) {
 					}
 				}
 			case *ast.AssignStmt:
+				if sliceStore && len(v.Lhs) == 1 && len(v.Rhs) == 1 && ownerField(v.Lhs[0], bufField) {
+					rhs := ast.Unparen(v.Rhs[0])
+					done := false
+					if call, ok := rhs.(*ast.CallExpr); ok && v.Tok == token.ASSIGN {
+						if id, ok := call.Fun.(*ast.Ident); ok && id.Name == "append" && len(call.Args) >= 2 && ownerField(call.Args[0], bufField) {
+							if _, isBuiltin := info.Uses[id].(*types.Builtin); isBuiltin {
+								if call.Ellipsis.IsValid() {
+									out = append(out, cev{kind: "append", e: call.Args[1]})
+								} else {
+									for range call.Args[1:] {
+										out = append(out, cev{kind: "append", txt: "1"})
+									}
+								}
+								done = true
+							}
+						}
+					}
+					if sl, ok := rhs.(*ast.SliceExpr); ok && v.Tok == token.ASSIGN && ownerField(sl.X, bufField) && sl.Low == nil && sl.High != nil && types.ExprString(sl.High) == "0" {
+						out = append(out, cev{kind: "reset"})
+						done = true
+					}
+					if id, ok := rhs.(*ast.Ident); ok && id.Name == "nil" {
+						out = append(out, cev{kind: "reset"})
+						done = true
+					}
+					if !done {
+						out = append(out, cev{kind: "append", txt: "?" + types.ExprString(v.Rhs[0])})
+					}
+				}
 				if len(v.Lhs) == 1 && ownerField(v.Lhs[0], cntField) {
 					switch v.Tok {
 					case token.ADD_ASSIGN:
